@@ -479,6 +479,11 @@ def splice_ghost(text, ghosts):
     """ghosts: list of (where, anchor_text, ghost_text); where in before|after.
     anchor_text must occur exactly once (whitespace-insensitive)."""
     for where, anchor, ghost in ghosts or []:
+        if where == "start":
+            # refactor-proof anchor: directly after the opening brace of the function body
+            s_, bo, bc = fn_parts(text)
+            text = text[:bo + 1] + "\n" + ghost.strip() + "\n" + text[bo + 1:]
+            continue
         pat = r"\s*".join(re.escape(tok) for tok in re.findall(r"[A-Za-z_0-9]+|\S", anchor))
         ms = list(re.finditer(pat, text))
         if len(ms) != 1:
